@@ -118,6 +118,14 @@ func (p *ProposerConfig) UnmarshalJSON(input []byte) error {
 		if err != nil {
 			return errors.Wrap(err, fmt.Sprintf("invalid account proposer %s", data.Proposer))
 		}
+		if proposer != data.Proposer {
+			// Anchors were added: group the expression so that a top-level
+			// alternation such as "a|b" cannot escape them ("^a|b$").
+			account, err = regexp.Compile(fmt.Sprintf("^(?:%s)$", data.Proposer))
+			if err != nil {
+				return errors.Wrap(err, fmt.Sprintf("invalid account proposer %s", data.Proposer))
+			}
+		}
 		p.Account = account
 	}
 	if data.FeeRecipient != "" {
